@@ -203,8 +203,15 @@ def mutate_bytes(rng, data, nmut):
 
 def structural(rng):
     """Semantic edge cases written directly (each returns gdl text)."""
-    k = rng.randrange(22)
+    k = rng.randrange(23)
     G = "table(glyph) cA = glyphid(3..6); cB = glyphid(7..10); cC = glyphid(11); endtable;\n"
+    if k == 22:
+        # preprocessor arithmetic: zero divisors, evaluated or in a skipped operand, huge numbers, deep nesting
+        ops = ["1000 / 0", "1000 % 0", "defined(KX) && (1000 / KX) > 10", "!defined(KX) || (5 % KX)", "defined(KX) ? 9 / KX : 7",
+               "0 ? 1 / 0 : 2", "1 || 1 / 0", "0 && 1 % 0", "(1 << 40) / (1 << 39)", "-2147483647 - 1", "(-2147483647 - 1) / -1",
+               "(" * 30 + "1" + ")" * 30, "1 ? 2 ? 3 / 0 : 4 : 5"]
+        body = "".join("#if %s\n#endif\n" % rng.choice(ops) for _ in range(rng.randint(1, 4)))
+        return H + body + G + "table(sub) cA > cB; endtable;\n"
     if k == 0:
         return H + "table(glyph) cE = (); cB = glyphid(7..9); endtable;\ntable(sub) cE > cB; cB > cE; cE cE > cB cB; endtable;\n"
     if k == 1:
@@ -372,6 +379,10 @@ def classify(rc, out):
         return "assert", "assert:%s:%s" % (loc.group(1) if loc else "?", (m.group(1) or "")[:60])
     if isinstance(rc, int) and rc < 0:
         return "crash", "signal:%d" % (-rc)
+    m = re.search(r"Pre-processor died with signal (\d+)", out)
+    if m:
+        # the compiler survives and reports error 1113, but its preprocessor child was killed: a crash on this input
+        return "crash", "gdlpp-signal:%s" % m.group(1)
     if rc not in (0, 1, 2):
         return "badexit", "exit:%s" % rc
     return "ok", None
